@@ -33,10 +33,10 @@ fn setup(ctx: &mut Ctx) {
 
 fn strata(t: Tier) -> Vec<Stratum> {
     vec![
-        st("standalone-small", scale(t, 12_000, 1_000_000, 10)),
-        st("standalone-large", scale(t, 600, 40_000, 1)),
+        st("standalone-small", scale(t, 1_200_000, 12_000_000, 10)),
+        st("standalone-large", scale(t, 60_000, 600_000, 1)),
         #[cfg(feature = "full")]
-        st("via-elf-file", scale(t, 3_000, 200_000, 3)),
+        st("via-elf-file", scale(t, 300_000, 3_000_000, 3)),
     ]
 }
 
